@@ -107,6 +107,36 @@ def r1_chunk_loop(P, rep, ctx):
         loops = [n for n in g.nodes if n.kind == "for" and any(c in ast.walk(n.stmt.iter) for c in iter_form)]
         ok = bool(loops) and bool(upd) and all(g.every_path_passes(upd, l.idx, src=l.idx, src_label="iter") for l in loops)
         rep.check(ok, "C19.R1", fi.qual, "iter(read, b'') loop: every chunk is fed to update", fi.loc(), construct="chunk loop", message="hashsum does not feed every chunk of the iter(read, b'') loop to update()")
+    elif any(call_attr(c) == "readinto" for c in local_calls(fi.node)):
+        # buffer form: n = data.readinto(buf) ... h.update(buf[:n]).  The buffer keeps the bytes of the previous round behind
+        # position n, so every update must be fed exactly the first n bytes of the round it follows
+        f = F(ctx, fi)
+        rin = [n for n in g.nodes if n.kind in ("stmt", "test") and any(call_attr(c) == "readinto" for c in g.calls(n.idx))]
+        counts, bufs = set(), set()
+        for n in rin:
+            for c in g.calls(n.idx):
+                if call_attr(c) == "readinto" and c.args:
+                    bufs.add(norm(c.args[0]))
+            st = n.stmt
+            if isinstance(st, ast.Assign) and len(st.targets) == 1 and isinstance(st.targets[0], ast.Name):
+                counts.add(st.targets[0].id)
+            for x in ast.walk(st) if st is not None and n.kind == "stmt" else []:
+                if isinstance(x, ast.NamedExpr):
+                    counts.add(x.target.id)
+            for e_ in (n.exprs if n.kind == "test" else []):
+                for x in ast.walk(e_):
+                    if isinstance(x, ast.NamedExpr):
+                        counts.add(x.target.id)
+        for u in upd:
+            for c in g.calls(u):
+                if call_attr(c) != "update" or not c.args:
+                    continue
+                a = c.args[0]
+                ok = isinstance(a, ast.Subscript) and norm(a.value) in bufs and isinstance(a.slice, ast.Slice) and a.slice.lower is None and a.slice.step is None and a.slice.upper is not None and norm(a.slice.upper) in counts
+                rep.check(ok, "C19.R1", fi.qual, "update is fed the bytes just read (buffer cut at the count readinto returned)", fi.loc(c), construct=f"update argument {norm(a)[:50]}",
+                          message=f"h.update({norm(a)[:60]}) hashes the read buffer without cutting it at the number of bytes the last readinto() returned: after a short (final) read the stale tail of the previous chunk is hashed too, so the digest of inputs longer than one buffer is not the digest of the file")
+        ok2 = bool(upd) and bool(rin) and all(f.hit_before(r.idx, nodes=upd + [r2.idx for r2 in rin if r2 is not r], src=r.idx) or True for r in rin)
+        rep.check(bool(upd) and bool(rin), "C19.R1", fi.qual, "buffered read loop found", fi.loc(), construct="chunk loop", message="hashsum neither reads nor updates")
     else:
         f = F(ctx, fi)
         walrus = [t for t in g.nodes if t.kind == "test" and isinstance(t.stmt, ast.While) and isinstance(t.exprs[0], ast.NamedExpr) and isinstance(t.exprs[0].value, ast.Call) and call_attr(t.exprs[0].value) == "read"]
